@@ -28,6 +28,24 @@ func c09Mqtt(c *core.Ctx, lim *c09limiter, fns []*c09fn) {
 			limiterFields[st.Field(i)] = true
 		}
 	}
+	// fields of any struct of the package that hold a library limiter (Limiter itself, or the small
+	// implementations behind an interface / the captured state of a permitter)
+	isLibLimiter := func(t types.Type) bool {
+		return c09isPtrTo(t, c09lib, "RateLimiter") || c09isPtrTo(t, c09lib, "MultiRateLimiter")
+	}
+	for _, name := range pkg.Types.Scope().Names() {
+		tn, ok := pkg.Types.Scope().Lookup(name).(*types.TypeName)
+		if !ok {
+			continue
+		}
+		if st, ok := tn.Type().Underlying().(*types.Struct); ok {
+			for i := 0; i < st.NumFields(); i++ {
+				if isLibLimiter(st.Field(i).Type()) {
+					limiterFields[st.Field(i)] = true
+				}
+			}
+		}
+	}
 	acqNames := []string{"(*" + c09lib + ".RateLimiter).AcquirePermission", "(*" + c09lib + ".RateLimiter).AcquireNPermission", "(*" + c09lib + ".MultiRateLimiter).AcquirePermission"}
 
 	// --- configuration of a limiter: New/NewMulti(NewPolicy/NewMultiPolicy(timeout, period, rate(s)))
@@ -65,7 +83,7 @@ func c09Mqtt(c *core.Ctx, lim *c09limiter, fns []*c09fn) {
 		return cs
 	}
 	fieldCfgs := map[*types.Var][]cfgSite{}
-	funcStores := map[*types.Var][]ast.Expr{} // values stored into func-typed fields of Limiter
+	funcStores := map[*types.Var][]ast.Expr{} // values stored into func- or interface-typed fields of Limiter
 	for _, fd := range c09pkgFuncs(pkg) {
 		fl := flow.NewFunc(pkg, fd)
 		ast.Inspect(fd.Body, func(n ast.Node) bool {
@@ -81,11 +99,38 @@ func c09Mqtt(c *core.Ctx, lim *c09limiter, fns []*c09fn) {
 				if tv, ok := fl.Info.Types[as.Rhs[i]]; ok && tv.IsNil() {
 					continue
 				}
-				if _, isFunc := fld.Type().Underlying().(*types.Signature); isFunc {
+				switch fld.Type().Underlying().(type) {
+				case *types.Signature, *types.Interface:
 					funcStores[fld] = append(funcStores[fld], c09resolve(fl, as.Rhs[i]))
 					continue
 				}
 				fieldCfgs[fld] = append(fieldCfgs[fld], parseCfg(fl, as.Rhs[i], as))
+			}
+			return true
+		})
+		// limiter handed over in a struct literal: requestPermitter{rl: l}
+		ast.Inspect(fd.Body, func(n ast.Node) bool {
+			cl, ok := n.(*ast.CompositeLit)
+			if !ok {
+				return true
+			}
+			for _, el := range cl.Elts {
+				kv, ok := el.(*ast.KeyValueExpr)
+				if !ok {
+					continue
+				}
+				k, ok := kv.Key.(*ast.Ident)
+				if !ok {
+					continue
+				}
+				fld, _ := fl.Info.Uses[k].(*types.Var)
+				if fld == nil || !limiterFields[fld] || !isLibLimiter(fld.Type()) {
+					continue
+				}
+				if tv, ok := fl.Info.Types[kv.Value]; ok && tv.IsNil() {
+					continue
+				}
+				fieldCfgs[fld] = append(fieldCfgs[fld], parseCfg(fl, kv.Value, kv))
 			}
 			return true
 		})
@@ -182,10 +227,8 @@ func c09Mqtt(c *core.Ctx, lim *c09limiter, fns []*c09fn) {
 			case limiterFields[fld]:
 				s.label = fld.Name()
 				s.cfgs = fieldCfgs[fld]
-				if len(s.cfgs) == 0 {
-					c.Errorf("R-C09-4: anchor: no store to %s.Limiter.%s found", mq, fld.Name())
-					continue
-				}
+				// no store at all: the holder is never constructed with a limiter (dead site);
+				// reported as such below, the other sites are still decided
 			default:
 				if mk, ok := src.(*ast.CallExpr); ok && (calleeIs(declF, mk, c09lib+".New") || calleeIs(declF, mk, c09lib+".NewMulti")) {
 					s.label = types.ExprString(recvX) + " (" + strings.Join(s.charges, "+") + ")"
@@ -209,6 +252,10 @@ func c09Mqtt(c *core.Ctx, lim *c09limiter, fns []*c09fn) {
 
 	// --- unit and timeout of each charged limiter
 	for _, s := range sites {
+		if len(s.cfgs) == 0 {
+			c.Discharge("R-C09-4", s.declName+"|"+s.label+" charge matches configured rate", pos(c, s.call), "no limiter is ever stored into "+s.label+": the site cannot be reached with a configured limiter")
+			continue
+		}
 		for _, ch := range s.charges {
 			if strings.HasPrefix(ch, "?") {
 				c.Undecide("R-C09-4", s.declName+"|"+s.label+" charge matches configured rate", pos(c, s.call), "cannot classify the charge "+ch[1:]+" (neither the constant 1 nor the size parameter)")
@@ -347,14 +394,25 @@ func c09Mqtt(c *core.Ctx, lim *c09limiter, fns []*c09fn) {
 		}
 		var dyn []*ast.CallExpr
 		var dynField *types.Var
+		var dynHolder ast.Expr // the expression whose nil-ness says "nothing configured"
+		dynMethod := ""
 		for _, call := range calls(fd.Body, false) {
-			fld := c09fieldOf(g, c09resolve(g, call.Fun))
-			if fld == nil || !limiterFields[fld] {
+			fun := c09resolve(g, call.Fun)
+			if fld := c09fieldOf(g, fun); fld != nil && limiterFields[fld] {
+				if _, isFunc := fld.Type().Underlying().(*types.Signature); isFunc {
+					dyn = append(dyn, call)
+					dynField, dynHolder = fld, call.Fun
+				}
 				continue
 			}
-			if _, isFunc := fld.Type().Underlying().(*types.Signature); isFunc {
-				dyn = append(dyn, call)
-				dynField = fld
+			// a method call on an interface-typed field of Limiter
+			if sel, ok := fun.(*ast.SelectorExpr); ok {
+				if fld := c09fieldOf(g, c09resolve(g, sel.X)); fld != nil && limiterFields[fld] {
+					if _, isIface := fld.Type().Underlying().(*types.Interface); isIface {
+						dyn = append(dyn, call)
+						dynField, dynHolder, dynMethod = fld, sel.X, sel.Sel.Name
+					}
+				}
 			}
 		}
 		if len(dyn) == 0 {
@@ -368,6 +426,22 @@ func c09Mqtt(c *core.Ctx, lim *c09limiter, fns []*c09fn) {
 		d := dyn[0]
 		undecided := ""
 		for _, v := range funcStores[dynField] {
+			if dynMethod != "" {
+				// the single implementation(s) behind the interface: the stored value's type must
+				// implement the method by a function that charges a library limiter
+				ok := false
+				if tv, has := g.Info.Types[v]; has && tv.Type != nil {
+					if m := types.NewMethodSet(tv.Type).Lookup(pkg.Types, dynMethod); m != nil {
+						if md := declOf(pkg, m.Obj()); md != nil && len(byEnc[md.Body]) > 0 {
+							ok = true
+						}
+					}
+				}
+				if !ok {
+					undecided = "a value stored into Limiter." + dynField.Name() + " does not implement " + dynMethod + " by a method that charges a library limiter"
+				}
+				continue
+			}
 			if lit, ok := v.(*ast.FuncLit); !ok || !chargingLit[lit] {
 				undecided = "a value stored into Limiter." + dynField.Name() + " is not a closure that charges a library limiter"
 			}
@@ -442,8 +516,8 @@ func c09Mqtt(c *core.Ctx, lim *c09limiter, fns []*c09fn) {
 			}
 			if v, known := named.constant(ex, 0); !known || v.ExactString() != "true" {
 				bad, why = ex, "no limiter was charged but the result is not the constant true"
-			} else if !ex.State.Is(g.NilKey(d.Fun), flow.True) {
-				bad, why = ex, "a packet is admitted without calling the limiter closure "+types.ExprString(d.Fun)+" although it is not known to be unset (nil): the configured rate is not enforced"
+			} else if !ex.State.Is(g.NilKey(dynHolder), flow.True) {
+				bad, why = ex, "a packet is admitted without calling the limiter behind "+types.ExprString(dynHolder)+" although it is not known to be unset (nil): the configured rate is not enforced"
 			}
 		}
 		var w []string
